@@ -639,7 +639,8 @@ def denoteChildItems (children : List Node) : List Node :=
     | .mk .jsxExprContainer _ [.mk .jsxEmpty _ _] => none
     | .mk .jsxExprContainer _ [e] => some (nArg e)
     | .mk .jsxSpreadChild _ [e] => some (nSpreadArg e)
-    | v => some (nArg v)          -- nested element/fragment: already a vnode
+    | .mk (.other "vnode") as ks => some (nArg (.mk (.other "vnode") (as ++ ["direct"]) ks))   -- direct JSX nesting
+    | v => some (nArg v)
 
 def vslotsEntries (vs : Option Node) : List Node :=
   match vs with
